@@ -1,7 +1,7 @@
 (* C19 — functools.partial objects get the signature Python actually enforces. *)
 From Sigtools.Model Require Import Base Bind Roles Algebra.
 From Sigtools.Model Require Import Universe.
-From Sigtools.Proofs Require Import SmallModel Basics Deciders SweepDefs SweepDefs2 Bounded2 MaskLaws MaskExact.
+From Sigtools.Proofs Require Import SmallModel Basics Deciders SweepDefs SweepDefs2 Bounded2 MaskLaws MaskExact MaskNamesLib MaskNames MaskNamesProps.
 
 Theorem C19_wf s n kw pobj r : sig_partial s n kw pobj = Ok r -> validate (params r) = true.
 Proof. exact (sig_partial_wf s n kw pobj r). Qed.
@@ -57,3 +57,17 @@ Theorem C19_nothing_bound s pobj r :
   valid_sig (params s) = true -> sig_partial s 0 [] pobj = Ok r -> params r = params s.
 Proof. exact (partial_nothing_bound_params s pobj r). Qed.
 Print Assumptions C19_nothing_bound.
+
+(* ---- partial objects with bound KEYWORDS, all valid signatures (Proofs/MaskNames.v) ---- *)
+Theorem C19_names_exact : forall (ps : list param) (n : nat) (names0 : list name) (v : name -> N) (pobj : N), valid_sig ps = true -> NoDup names0 -> names_avoid_po ps names0 = true -> names_avoid_stars ps names0 = true -> match sig_partial (mk ps) n (map (fun k : name => (k, v k)) names0) pobj with | Ok r => forall c : call, noncolliding c (params r) [ps] = true -> accepts (params r) c = accepts ps (partial_call n names0 c) | Err e => e = ValueErr /\ (forall c : call, accepts ps (partial_call n names0 c) = false) end.
+Proof. exact @MaskNamesProps.C19_names_exact. Qed.
+Print Assumptions C19_names_exact.
+
+Theorem C19_partial_names_exact : forall (s : sigT) (n : nat) (kw : list (name * N)) (pobj : N), valid_sig (params s) = true -> NoDup (map fst kw) -> names_passable (params s) (map fst kw) = true -> match sig_partial s n kw pobj with | Ok r => forall c : call, noncolliding c (params r) [params s] = true -> accepts (params r) c = accepts (params s) (partial_call n (map fst kw) c) | Err e => e = ValueErr /\ (forall c : call, accepts (params s) (partial_call n (map fst kw) c) = false) end.
+Proof. exact @MaskNames.partial_names_exact. Qed.
+Print Assumptions C19_partial_names_exact.
+
+Theorem C19_partial_names_exact_refuted : exists (s : sigT) (n : nat) (kw : list (name * N)) (pobj : N) (c : call), valid_sig (params s) = true /\ NoDup (map fst kw) /\ avoid_consumed_po (params s) n (map fst kw) = true /\ sig_partial s n kw pobj = Err ValueErr /\ accepts (params s) (partial_call n (map fst kw) c) = true.
+Proof. exact @MaskNames.partial_names_exact_refuted. Qed.
+Print Assumptions C19_partial_names_exact_refuted.
+
